@@ -61,6 +61,19 @@ theorem C09_crash_first (enc : α → Bytes) (dec : Bytes → Option α) (hde : 
   · left; simp [load, applyOp, FS.put]
   · right; simp [load, applyOp, FS.put, FS.get, hde]
 
+/-- **C09 (an upgraded shard)**: the old-format file is never deleted, so it lies beside the store file
+    for ever.  Once an assignment has been saved — the empty one of a shard that went idle
+    included — `Load` resumes that and never falls back to the old file, whatever it holds; and
+    every later store file that decodes wins over it as well. -/
+theorem C09_legacy_never_resurfaces (enc : α → Bytes) (dec : Bytes → Option α) (hde : ∀ a, dec (enc a) = some a)
+    (ops : List FsOp) (hp : saveProtocol = some ops) (a : α) (main0 tmp0 : Option Bytes) (legacy : Bytes) :
+    load dec (runOps (enc a) ops ⟨main0, tmp0, some legacy⟩) = .cur a ∧
+    (∀ b tmp, load dec ⟨some (enc b), tmp, some legacy⟩ = .cur b) :=
+  ⟨C09_roundtrip enc dec hde ops hp a _, fun b tmp => by simp [load, hde]⟩
+
+/-- non-vacuity (seed C09-f): the old file holds `[7]`, the saved assignment is the empty list -/
+example : load (fun b => some b) (runOps ([] : Bytes) [.writeFile .tmp, .rename .tmp .main] ⟨none, none, some [7]⟩) = .cur [] := by decide
+
 /-- why the temp file matters: writing the store file in place is *not* crash safe — a cut after
     one byte of a two-byte encoding loads as an error (with a decoder that rejects proper prefixes) -/
 example : load (fun b => if b = [1, 2] then some () else none)
